@@ -43,6 +43,20 @@ func bytesTerm(x *Exec, v Value) *Term {
 	panic(abortf("expected bytes, got %T", v))
 }
 
+// shape resolves top-level ite terms by forking on their conditions, so that
+// contracts which look at the structure of a term (is it base64 of something,
+// a serialisation token, ...) see one definite shape.
+func (x *Exec) shape(t *Term) *Term {
+	for t.Op == "ite" && t.Sort == SStr {
+		if x.Branch(t.Args[0]) {
+			t = t.Args[1]
+		} else {
+			t = t.Args[2]
+		}
+	}
+	return t
+}
+
 func (x *Exec) attr(t *Term, name string) bool {
 	if t.Op == "sym" {
 		return x.strAttrs[t.S][name]
@@ -217,7 +231,7 @@ func registerCodecModels(e *Engine) {
 	}
 	m["(*encoding/base64.Encoding).DecodeString"] = func(x *Exec, fr *frame, a []Value) Value {
 		enc := b64name(x, a[0])
-		t := x.term(a[1])
+		t := x.shape(x.term(a[1]))
 		if t.IsConst() {
 			var b []byte
 			var err error
@@ -618,6 +632,7 @@ func (x *Exec) readAllFrom(fr *frame, r Value) (*Term, Value) {
 
 // inflate is the DEFLATE decoder contract.
 func (x *Exec) inflate(src *Term) (*Term, Value) {
+	src = x.shape(src)
 	if src.Op == "uf" && src.S == "deflate" {
 		return src.Args[0], nil
 	}
@@ -638,6 +653,7 @@ func (x *Exec) inflate(src *Term) (*Term, Value) {
 
 // xmlDecode is the Level S decode contract (DESIGN §3.4).
 func (x *Exec) xmlDecode(data *Term, target Value) Value {
+	data = x.shape(data)
 	iv, ok := x.force(target).(*IfaceV)
 	if !ok || iv.T == nil {
 		return x.errorC("xml: non-pointer passed to Unmarshal")
